@@ -75,6 +75,7 @@ type SpecFunc struct {
 	Ret    string
 	Body   *Clause // nil = uninterpreted
 	Macro  bool    // expanded inline in the state of the use site (may read the heap)
+	File   string  // defining file (a macro's body is resolved in that file's package)
 }
 
 // Theory: a background theory given as raw SMT-LIB text (sorts, datatypes, defined functions,
@@ -297,7 +298,7 @@ func parseContracts(srcs []contractSource) (*Contracts, error) {
 				if op < 0 || cp < op {
 					return nil, errf("bad spec func")
 				}
-				sf := &SpecFunc{Name: strings.TrimSpace(r[:op]), Macro: kw == "macro"}
+				sf := &SpecFunc{Name: strings.TrimSpace(r[:op]), Macro: kw == "macro", File: src.File}
 				for _, p := range splitTop(r[op+1:cp]) {
 					p = strings.TrimSpace(p)
 					if p == "" {
